@@ -502,6 +502,26 @@ pub fn random(args: &Args) {
                 tn = tn.min(pa.max(w.now));
             }
             w.now = tn;
+            // now and then the application touches the address list (the neighbour cache is flushed: every next hop has to be
+            // resolved again, and the rate limit on discovery requests keeps counting), or closes a UDP socket with whatever
+            // is queued in it and binds it again (what was queued is gone and must not resurface)
+            if rng.chance(2) {
+                w.iface.update_ip_addrs(|_| {});
+                t.ev(json!({"ev":"api","now":w.now,"call":"addrs"}));
+            }
+            if rng.chance(2) {
+                let k = rng.below(2) as usize;
+                let h = w.socks[k].h;
+                let baddr = scfg[k]["baddr"].as_bool().unwrap_or(false);
+                let s = w.sockets.get_mut::<udp::Socket>(h);
+                s.close();
+                if baddr {
+                    s.bind((ip_of(MY_IP, v6), 6000 + k as u16)).unwrap();
+                } else {
+                    s.bind(6000 + k as u16).unwrap();
+                }
+                t.ev(json!({"ev":"api","now":w.now,"call":"close","sock":k}));
+            }
             // application sends
             if next_did <= total_dg && rng.chance(35) {
                 let k = rng.below(4) as usize;
